@@ -20,7 +20,8 @@ RULE = (
     "collections in omit, which keep theirs), same seed => same keys, other seed => other keys; bind / wait_on: every "
     "logged child (downstream) event has a larger logical time than every parent event and all parent chunks ran; "
     "checkpoint computes to None and all input chunks ran before. Non-trivial: parents with >= 2 chunks and a child sharing "
-    "a sub-graph with a parent, or a non-empty omit."
+    "a sub-graph with a parent, or a non-empty omit (for bind also: omit = an ancestor of the child unrelated to the parents, "
+    "with a layer in between that depends on nothing but the omitted collection)."
 )
 ASSUMPTIONS = ["execution order is observed through the chunk functions themselves (logical clock under a lock)"]
 TECHNIQUE = "Hypothesis-generated collections with logging chunk functions; invariants over execution logs and key sets (metamorphic: manipulation keeps values)"
@@ -181,13 +182,26 @@ def check(case):
             parents = colls[:np_]
             child_base = colls[np_]
             shared = case.get("share") and type(parents[0]).__name__ == type(child_base).__name__ == "Array" and parents[0].shape == child_base.shape
-            child = (child_base + parents[0]) if shared else child_base
-            child = downstream(child, "child")
-            with impl("bind", **sig):
+            omit_base = bool(case.get("omit_base")) and not shared
+            if omit_base:
+                # an ancestor of the child that has nothing to do with the parents is listed in omit: it is shared,
+                # everything built on it is re-created and must wait for the parents - including a first layer
+                # that depends on nothing but the omitted collection (a materialized slicing layer / a Delayed call)
+                mid = child_base[::-1] if type(child_base).__name__ == "Array" and child_base.ndim else child_base
+                child = downstream(downstream(mid, "mid"), "child")
+                omit = [child_base]
+            else:
+                child = (child_base + parents[0]) if shared else child_base
+                child = downstream(child, "child")
                 # When the child is built on a parent, omit= keeps the shared sub-graph as it is
                 # (otherwise bind clones the parent's tasks into the child, and the clones - which run
                 # the same logging function - legitimately run after the blocker)
-                bound = bind(child, parents, omit=parents if shared else None, seed=case["seed"], assume_layers=case.get("assume_layers", True), split_every=se)
+                omit = parents if shared else None
+            sig["omit_base"] = omit_base
+            with impl("bind", **sig):
+                bound = bind(child, parents, omit=omit, seed=case["seed"], assume_layers=case.get("assume_layers", True), split_every=se)
+            if omit_base:
+                ensure(not (keys_of(bound) & keys_of(child)), "bind(omit=ancestor) returned the original output keys", "bind-shares-keys", **sig)
             expect = val(child.compute(scheduler="sync"))
             reset_log()
             with impl("compute bound", **sig):
@@ -195,7 +209,7 @@ def check(case):
             ensure(got == expect, f"bind changed the value: {short(got)} vs {short(expect)}", "bind-value", **sig)
             parent_tags = {f"c{i}" for i in range(np_)}
             pt = [t for tag, t in LOG if tag in parent_tags]
-            ct = [t for tag, t in LOG if tag == "child"]
+            ct = [t for tag, t in LOG if tag in ("child", "mid")]
             ensure(len(pt) >= sum(ntasks[:np_]), f"bind: only {len(pt)} parent chunk events ran, expected >= {sum(ntasks[:np_])}", "bind-parents-not-run", **sig)
             ensure(ct, "bind: child did not run", "bind-child-not-run", **sig)
             ensure(max(pt) < min(ct), f"bind: a child task ran at {min(ct)} before the last parent task at {max(pt)}", "bind-order", **sig)
@@ -255,6 +269,7 @@ def case_strategy(draw, kinds=("array", "array", "bag", "delayed")):
         "target": draw(st.integers(0, 2)),
         "nparents": draw(st.integers(1, 2)),
         "share": draw(st.booleans()),
+        "omit_base": draw(st.booleans()),
         "split_every": draw(st.sampled_from([None, 2, 3, False])),
         # assume_layers=False (the slower key-level algorithm) is not explored: it has several
         # defects of its own (see findings/C16.json clone-omit-keylevel); the default is True
@@ -269,12 +284,14 @@ def nontrivial(case):
     if case["op"] == "clone":
         return bool(case.get("omit")) and multi
     if case["op"] == "bind":
-        return multi and bool(case.get("share"))
+        return multi and (bool(case.get("share")) or bool(case.get("omit_base")))
     return multi and len(case["colls"]) >= 2
 
 
 def classes(case):
     yield "op-" + case["op"]
+    if case["op"] == "bind" and case.get("omit_base"):
+        yield "bind-omit-ancestor"
     for cs in case["colls"]:
         yield "kind-" + cs["kind"]
     yield "sched-" + case["scheduler"]
